@@ -186,6 +186,10 @@ var c15Leaves = []gram.Leaf{gram.LVarX, gram.LInt, gram.LStr, gram.LDate, gram.L
 	gram.L("9999-12-31T23:59:59Z", rx.Date(253402300799)), gram.L("2300-01-01T00:00:00Z", rx.Date(10413792000)),
 	gram.L(`"100%"`, rx.Str("100%")), gram.L(`"%d %s %v"`, rx.Str("%d %s %v")), gram.L(`"a, b) <- c("`, rx.Str("a, b) <- c(")), gram.L(`"check if x or y"`, rx.Str("check if x or y")), gram.L(`"[1, 2]"`, rx.Str("[1, 2]")),
 	gram.L("9223372036854775807", rx.Int(9223372036854775807)), gram.L("hex:00ff", rx.Bytes([]byte{0, 255})), gram.L("false", rx.Bool(false)), gram.L("[true]", rx.SetOf(rx.Bool(true))),
+	// sets written in an order that is neither numeric nor textual order (a printer or an encoder that sorts shows here)
+	gram.L("[9, 10, 2]", rx.SetOf(rx.Int(9), rx.Int(10), rx.Int(2))), gram.L("[3, 1, 2]", rx.SetOf(rx.Int(3), rx.Int(1), rx.Int(2))),
+	gram.L("[hex:ff, hex:00]", rx.SetOf(rx.Bytes([]byte{255}), rx.Bytes([]byte{0}))), gram.L("[true, false]", rx.SetOf(rx.Bool(true), rx.Bool(false))),
+	gram.L("[2030-01-01T00:00:00Z, 1999-01-01T00:00:00Z]", rx.SetOf(rx.Date(1893456000), rx.Date(915148800))),
 }
 
 type c15Elem struct {
